@@ -195,11 +195,14 @@ func c10InterruptedWaiter(run *report.Run, n int) {
 					time.Sleep(20 * time.Millisecond)
 				}
 			}})
-		aStillRunning := len(doneA) == 0
 		lockContent := ""
 		if b, err := os.ReadFile(lockFile); err == nil {
 			lockContent = strings.TrimSpace(string(b))
 		}
+		// judged only if A had not begun to release its lock when the file was read (the release
+		// event is logged before the file is removed), so that a slow machine cannot turn A's own
+		// orderly release into an alarm
+		aStillRunning := len(doneA) == 0 && !saw(logA, "lock.release")
 		var resC *grog.Result
 		if signalled && aStillRunning {
 			resC = env.M.Run([]string{"build", "//p:quick"}, grog.RunOpts{Build: "C", Timeout: 60 * time.Second})
